@@ -211,3 +211,102 @@ c18_reach!(c18_reach_w1_n3_bal, quick, 6, 1, 3, [(0u8, 0usize)]);
 c18_reach!(c18_reach_w2_n3_bal_steal, quick, 6, 2, 3, [(0u8, 0usize), (1, 1), (1, 1)]);
 c18_reach!(c18_reach_w2_n4_mix, thorough, 7, 2, 4, [(0u8, 0usize), (1, 1), (0, 1), (1, 0)]);
 c18_reach!(c18_reach_w3_n4_mix, thorough, 7, 3, 4, [(0u8, 0usize), (0, 1), (1, 2), (1, 2)]);
+
+/// One queue, concrete operation script (instance), symbolic task attributes.
+/// Script codes: 0 = push_local(new task), 1 = pop_local, 2 = steal, 3 = balance.
+fn queue_script(script: &[u8], cap: usize) {
+    let q = WorkStealingQueue::new(0, cap);
+    let mut pushed = [false; 4];
+    let mut got = [0u8; 4];
+    let mut next_id = 0u8;
+    let mut step = 0;
+    while step < script.len() {
+        match script[step] {
+            0 => {
+                let class: u8 = vany();
+                assume(class < 2);
+                let st: bool = vany();
+                let before = q.len();
+                let r = q.push_local(mk(next_id, class, st));
+                match &r {
+                    Ok(()) => { pushed[next_id as usize] = true; assert!(q.len() == before + 1); }
+                    Err(_) => { assert!(before >= cap, "push refused although there was room"); }
+                }
+                forget(r);
+                next_id += 1;
+            }
+            1 => { if let Some(t) = q.pop_local() { got[id_of(&t)] += 1; forget(t); } }
+            2 => { if let Some(t) = q.steal() { got[id_of(&t)] += 1; forget(t); } }
+            _ => q.balance(),
+        }
+        step += 1;
+    }
+    let remaining = q.len();
+    let mut drained = 0;
+    let mut guard = 0;
+    while guard < 4 {
+        let t = match q.pop_local() { Some(t) => Some(t), None => q.steal() };
+        match t {
+            Some(t) => { got[id_of(&t)] += 1; drained += 1; forget(t); }
+            None => break,
+        }
+        guard += 1;
+    }
+    assert!(drained == remaining, "len() disagrees with what can be taken out");
+    assert!(q.is_empty());
+    let mut i = 0;
+    while i < 4 {
+        assert!(got[i] == if pushed[i] { 1 } else { 0 }, "a task was lost, duplicated or invented");
+        i += 1;
+    }
+    zcover!(remaining > 0, "opt: something was left to drain");
+    zcover!(true, "end reached");
+    forget(q);
+}
+macro_rules! c18_qscript {
+    ($name:ident, $tier:ident, $unwind:literal, $cap:literal, $script:expr) => {
+        zv_harness! {
+            name: $name,
+            prop: "C18",
+            tier: $tier,
+            unwind: $unwind,
+            stubs: [alloc::fmt::format => crate::common::stubs::fmt_format],
+            targets: "concurrency::work_stealing::WorkStealingQueue::{push_local, pop_local, steal, balance, len, is_empty}",
+            bounds: "one queue of the capacity given by the instance; the concrete operation script of the instance (0 push_local of a new task, 1 pop_local, 2 steal, 3 balance); every pushed task has a symbolic priority class 0..1 and stealable flag; each queue operation is atomic (holds its mutexes for its whole body)",
+            oracle: "every accepted task is obtained exactly once over the script plus a final drain; len() equals the number of tasks that can still be taken out; a push is refused only when the local queue is full",
+            body: { queue_script(&$script, $cap) }
+        }
+    };
+}
+c18_qscript!(c18_q_push2_steal_pop, quick, 6, 2, [0u8, 0, 2, 1]);
+c18_qscript!(c18_q_push2_bal_steal, quick, 6, 2, [0u8, 0, 3, 2]);
+c18_qscript!(c18_q_push3_full_bal, quick, 6, 2, [0u8, 0, 0, 3, 1]);
+c18_qscript!(c18_q_push3_bal_steal2, thorough, 7, 3, [0u8, 0, 0, 3, 2, 2, 1]);
+
+// ---- probes (cost calibration)
+zv_harness! {
+    name: c18_probe_queue_push_pop,
+    prop: "C18",
+    tier: thorough,
+    unwind: 4,
+    stubs: [alloc::fmt::format => crate::common::stubs::fmt_format],
+    targets: "WorkStealingQueue::{push_local, pop_local}",
+    bounds: "one queue cap 2, one task with symbolic class/stealable, push then pop",
+    oracle: "the task pushed is the task popped",
+    body: {
+        let q = WorkStealingQueue::new(0, 2);
+        let class: u8 = vany();
+        assume(class < 2);
+        let st: bool = vany();
+        let r = q.push_local(mk(1, class, st));
+        assert!(r.is_ok());
+        forget(r);
+        let t = q.pop_local();
+        match t {
+            Some(t) => { assert!(id_of(&t) == 1); forget(t); }
+            None => panic!("lost"),
+        }
+        zcover!(true, "end");
+        forget(q);
+    }
+}
